@@ -68,6 +68,12 @@ RULES = {
     "errstmt": "the same failing sub-expressions in every statement position (for init/cond/post/body, for-in iterable/body, every "
                "if/elif condition, assignment and compound assignment right-hand sides and subscripts, call arguments), bare and in a "
                "script reached through use()",
+    "v2coll": "the slice, index and aliasing families and the container operators (in, ==, != over lists/maps incl. nested and nil-holding "
+              "ones) on the v2 interpreter",
+    "builtins": "every field-manipulating builtin x argument shape x subject situation x value kind (the C11 family; here for 'never "
+                "crashes, whatever a builtin meets')",
+    "extract": "every catalogued subject of grok / default_time (layouts x zones, valid and invalid, repeated) / datetime / xml / sql_cover "
+               "(the C12 family)",
     "hostile": "ill-typed and extreme operands in every operator / condition / iterable / element / index / slice-bound position, "
                "object-less index expressions, attribute expressions, overflowing ranges and steps",
     "v2shared": "the operator table (literal / variable operands, unary, trees), slices, indexing, control flow and aliasing "
